@@ -141,6 +141,24 @@ STRINGS = []
 BRACKETS = []
 
 
+def name_and_label_tied():
+    """Name.match / Label.match are the modelled calls and the two patterns are the modelled regular expressions"""
+    import re
+    import fparser.two.Fortran2003 as F3
+    from fparser.two import pattern_tools as pattern
+    out = {}
+    for cls, call, pat, want in ((F3.Name, "StringBase.match(pattern.abs_name, string.strip())", pattern.abs_name, r"\A(?:[A-Z][\w$]*)\Z"),
+                                 (F3.Label, "StringBase.match(pattern.abs_label, string)", pattern.abs_label, r"\A(?:\d{1,5})\Z")):
+        fn = cls.__dict__["match"]
+        fn = getattr(fn, "__func__", fn)
+        tree = ast.parse(textwrap.dedent(inspect.getsource(fn)))
+        body = [s for s in tree.body[0].body if not (isinstance(s, ast.Expr) and isinstance(getattr(s, "value", None), ast.Constant))]
+        ok = len(body) == 1 and isinstance(body[0], ast.Return) and ast.unparse(body[0].value) == call
+        ok = ok and pat.pattern == want and (pat._flags & re.I if cls is F3.Name else True)
+        out[cls.__name__] = bool(ok)
+    return out
+
+
 def _txt(s):
     return "[" + "; ".join('"%s"' % ch if ch != '"' else '""""' for ch in s) + "]%char"
 
@@ -167,6 +185,9 @@ def generate(gen_dir):
         f.write("Definition bracket_classes : list (string * list ascii * bool * bool) := [\n")
         f.write(";\n".join('  ("%s:%s", %s, %s, %s)' % (std, n, _txt(br), b(h), b(r)) for std, n, br, h, r in BRACKETS))
         f.write("].\n")
+        nl = name_and_label_tied()
+        f.write("(* Name.match / Label.match are the modelled calls with the modelled regular expressions *)\n")
+        f.write("Definition name_class_tied : bool := %s.\nDefinition label_class_tied : bool := %s.\n" % (b(nl["Name"]), b(nl["Label"])))
         f.write("(* not modelled (match() does more than delegate, or the name class is not Name): %s *)\n"
                 % ", ".join("%s:%s" % (s, n) for s, n, _ in skipped))
 
